@@ -19,7 +19,7 @@ import (
 	"time"
 )
 
-const HarnessDir = Root + "/harness"
+var HarnessDir = Root + "/harness"
 
 // GoBuild builds a package of the harness module (linking /repo's working
 // tree) into the run's scratch directory.
